@@ -31,18 +31,6 @@ def _run(ctx, w):
     from rules import c02
     c02.relayout_clears_wrap(ctx, w, S, R, "Y10")
     shared.mode_arm_siblings(ctx, w, S, R, "Y11")
-    # Y13: the whole print clause, semantically
-    ctx.rule("Y13", "the print handler evaluated on 3x3 symbolic terminals (every valid margin pair, cursor position, wrap-pending / auto-wrap / insert-mode combination) does exactly what the statement says: "
-                    "deferred wrap first (column 0 of the next row, region scrolled on the bottom margin, the row left marked soft-wrapped; nothing of that on the last row below the region), then the cell under "
-                    "the cursor (insert mode shifts, the last column is overwritten), then advance or park wrap-pending (auto-wrap on only)")
-    try:
-        from rules import hinterp as _hi
-        okp, infop = _hi.print_semantics(w, S, R, w.handler("Print")[0])
-        ctx.check(okp, "Y13", "print", str(infop), loc=w.fn_loc(w.handler("Print")[0]), sample={"cases": infop})
-        if okp:
-            ctx.rule_counts["Y13"] = infop
-    except Exception as ex:
-        ctx.violation("Y13", "print", "cannot evaluate the print handler: %r" % (ex,))
     # "no other cell or soft-wrap mark changes": the buffer-level print / insert primitives against their specification
     from rules import prims as _prims
     _prims.buffer_edit_primitives(ctx, w, S, R, "Y9b", spec=True)
@@ -154,23 +142,35 @@ def lit(v):
 _Y3SEM = {}
 
 
-def print_ok(w, S, R):
-    """Silent verdict of the print handler's semantic form (cached per fact set)."""
-    c = getattr(w.facts, "_print_ok", None)
+def print_verdict(w, S, R):
+    """(ok, info) of the print handler's semantic form (hinterp.print_semantics), cached per fact set."""
+    c = getattr(w.facts, "_print_verdict", None)
     if c is None:
         try:
             from rules import hinterp
             hs = w.handler("Print")
-            c = len(hs) == 1 and hinterp.print_semantics(w, S, R, hs[0])[0] is True
-        except Exception:
-            c = False
-        w.facts._print_ok = c
+            c = hinterp.print_semantics(w, S, R, hs[0]) if len(hs) == 1 else (False, "no single Print handler")
+        except Exception as ex:
+            c = (False, "cannot evaluate the print handler: %r" % (ex,))
+        w.facts._print_verdict = c
     return c
+
+
+def print_ok(w, S, R):
+    return print_verdict(w, S, R)[0] is True
 
 
 def print_rules(ctx, w, S, R):
     _Y3SEM.clear()
-    ctx = shared.Deferred(ctx, {"Y4", "Y5"}, print_ok(w, S, R))       # shape forms of clauses the evaluated print handler (Y13) decides
+    # Y13: the whole print clause, semantically
+    ctx.rule("Y13", "the print handler evaluated on small symbolic terminals (3x3, 2x1, 1x2, 1x1; every valid margin pair, cursor position, wrap-pending / auto-wrap / insert-mode combination) does exactly what the "
+                    "statement says: deferred wrap first (column 0 of the next row, region scrolled on the bottom margin, the row left marked soft-wrapped; nothing of that on the last row below the region), then the "
+                    "cell under the cursor (insert mode shifts, the last column is overwritten), then advance or park wrap-pending (auto-wrap on only)")
+    okp, infop = print_verdict(w, S, R)
+    ctx.check(okp is True, "Y13", "print", str(infop), loc=w.fn_loc(w.handler("Print")[0]) if w.handler("Print") else None, sample={"cases": infop})
+    if okp is True:
+        ctx.rule_counts["Y13"] = infop
+    ctx = shared.Deferred(ctx, {"Y4", "Y5"}, okp is True)       # shape forms of clauses the evaluated print handler (Y13) decides
     E = w.E
     cur = R["cursor"]
     hs = w.handler("Print")
